@@ -99,7 +99,16 @@ def _mk(key, params=None, returns=None, requires=(), ensures=(), ensures_exc=(),
     for k, v in (loops or {}).items():
         lp[k] = {"inv": _clauses(v.get("inv"), "L"), "modifies": list(v.get("modifies", ())),
                  "variant": v.get("variant"), "havoc": list(v.get("havoc", ()))}
-    return Contract(
+    defaults = {}
+    pclean = {}
+    for k, v in (params or {}).items():
+        if isinstance(v, str) and "=" in v:
+            v, d = v.split("=", 1)
+            defaults[k] = d.strip()
+        pclean[k] = v
+    params = pclean
+    con_defaults = defaults
+    return _with_defaults(Contract(
         key=key, params={k: parse_ty(v) for k, v in (params or {}).items()},
         returns=parse_ty(returns) if returns else None,
         requires=_clauses(requires), ensures=_clauses(ensures),
@@ -107,7 +116,12 @@ def _mk(key, params=None, returns=None, requires=(), ensures=(), ensures_exc=(),
         loops=lp, captures={k: parse_ty(v) for k, v in (captures or {}).items()},
         at_yield=_clauses(at_yield), props=list(props), assumed=assumed, note=note,
         locals={k: parse_ty(v) for k, v in (locals or {}).items()},
-        concretize=concretize, native_skip=native_skip)
+        concretize=concretize, native_skip=native_skip), con_defaults)
+
+
+def _with_defaults(c, d):
+    c.defaults = d
+    return c
 
 
 def C(key, **kw):
@@ -116,8 +130,17 @@ def C(key, **kw):
     return c
 
 
-def ASSUME(key, **kw):
+VIEWS = {}
+
+
+def ASSUME(key, view=False, **kw):
+    """assumed contract; with view=True it is the contract *callers* see for a function that also has a
+    verified contract of its own (reported among the assumptions wherever it is used)"""
     kw["assumed"] = True
+    if view:
+        c = _mk(key, **kw)
+        VIEWS[key] = c
+        return c
     return C(key, **kw)
 
 
